@@ -240,7 +240,8 @@ def unit_api(args, prefix=(), max_depth=None):
     harness.set_kernel_mode('merged')
     concepts = harness.load_concepts()
     cells = harness.cell_vars(n, m)
-    objs, props = harness.names(n, m)
+    from .pertable import awkward_labels
+    objs, props = awkward_labels(n, m)      # prefixes of each other, spaces, numeric-looking, one-character labels
     total = {'paths': 0, 'cex': [], 'queries': 0, 'cuts': [], 'samples': [], 'inconclusive': []}
 
     def mk():
@@ -269,7 +270,11 @@ def unit_api(args, prefix=(), max_depth=None):
                 for sub in itertools.combinations(range(len(labels)), k):
                     want = d(sum(1 << i for i in sub))
                     names_ = [labels[i] for i in sub]
-                    forms = [names_, list(reversed(names_)), names_ + names_[:1], tuple(names_), iter(names_)]
+                    forms = [names_, list(reversed(names_)), names_ + names_[:1], tuple(names_), iter(names_),
+                             set(names_), dict.fromkeys(names_).keys()]
+                    if names_ and all(len(x) == 1 for x in names_):
+                        forms.append(''.join(names_))     # a str is an iterable of one-character labels
+                        forms.append(''.join(reversed(names_)))
                     for form in forms:
                         got = meth(form, raw=True)
                         conj.append((_bv(got) == want, side, names_, f'{side}(raw=True) != derivation'))
